@@ -372,8 +372,41 @@ class Universe:
                 path, is_pkg = self.find(name)
                 if path is not None and not is_pkg and '*' in fromlist:
                     return self.load(name)
+                if path is not None and is_pkg and '*' in fromlist:
+                    return self.pkg_star(name)
             return Namespace(self, name)
         return Namespace(self, top)
+
+    def pkg_star(self, pkg):
+        """object standing for `from <package> import *`: the names the package __init__ imports explicitly or by star"""
+        import types
+        ns = types.SimpleNamespace()
+        names = []
+        for text in self.pkg_inits(pkg):
+            for m in re.finditer(r'^from\s+(\.+)([\w\.]*)\s+c?import\s+(.+)$', text, re.M):
+                dots, mod, what = m.group(1), m.group(2), m.group(3).split('#')[0].strip()
+                parts = pkg.split('.')
+                up = len(dots) - 1
+                basepkg = '.'.join(parts[:len(parts) - up]) if up else pkg
+                full = basepkg + ('.' + mod if mod else '')
+                if what == '*':
+                    path, is_pkg = self.find(full)
+                    if path is None:
+                        continue
+                    src = self.pkg_star(full) if is_pkg else self.load(full)
+                    for k in (getattr(src, '__all__', None) or [k for k in vars(src) if not k.startswith('_')]):
+                        setattr(ns, k, getattr(src, k))
+                        names.append(k)
+                    continue
+                for w in what.strip('()').split(','):
+                    w = w.strip()
+                    if not w:
+                        continue
+                    o_, a_ = ([t.strip() for t in w.split(' as ')] if ' as ' in w else (w, w))
+                    setattr(ns, a_, self.resolve(full, o_))
+                    names.append(a_)
+        ns.__all__ = names
+        return ns
 
     def stubs_modules(self):
         return {k[0] for k in self.stubs if isinstance(k, tuple)}
